@@ -524,7 +524,7 @@ CFGS = ['default']
 def c01(ctx, rep):
     for cfg in CFGS:
         tag = ''
-        R = rep.rule('C01.R7', 'residual definitions: units and signed linear forms (rx = -Px - A'z - tau q, rz = Ax + s - tau b, ...); documented normalised residual figures')
+        R = rep.rule('C01.R7', 'residual definitions: units and signed linear forms (rx = -Px - A^T z - tau q, rz = Ax + s - tau b, ...); documented normalised residual figures')
         R.guard(lambda: residual_definitions(R, ctx, cfg, tag))
         from . import forms_rules
         R.guard(lambda: forms_rules.residual_forms(R, ctx, cfg, tag))
@@ -573,7 +573,7 @@ def c02(ctx, rep):
             unscale_units(R, ctx, cfg, tag)
             infeasibility_tests(R, ctx, cfg, tag, finals)
         R.guard(body)
-        R5 = rep.rule('C02.R5', 'partial residual definitions (rx_inf = -A'z, rz_inf = Ax + s, Px) and infeasibility residual figures: units and signed forms')
+        R5 = rep.rule('C02.R5', 'partial residual definitions (rx_inf = -A^T z, rz_inf = Ax + s, Px) and infeasibility residual figures: units and signed forms')
         R5.guard(lambda: residual_definitions(R5, ctx, cfg, tag))
         from . import forms_rules
         R5.guard(lambda: forms_rules.residual_forms(R5, ctx, cfg, tag))
